@@ -9,8 +9,46 @@ import time
 import z3
 
 Z3_TIMEOUT_MS = int(os.environ.get("PYVC_Z3_TIMEOUT_MS", "20000"))
+INC_TIMEOUT_MS = int(os.environ.get("PYVC_INC_TIMEOUT_MS", "3000"))
+EMATCH_TIMEOUT_MS = int(os.environ.get("PYVC_EMATCH_TIMEOUT_MS", "8000"))
 CVC5_TIMEOUT_S = int(os.environ.get("PYVC_CVC5_TIMEOUT_S", "30"))
 CVC5 = os.environ.get("PYVC_CVC5", "/usr/bin/cvc5")
+
+
+class PathSolver:
+    """Obligations of one path share an incremental E-matching solver (facts only grow along a
+    path); whatever it leaves open is re-tried one-shot (E-matching, then MBQI, then cvc5)."""
+
+    def __init__(self, facts):
+        self.facts = facts
+        self.n = 0
+        self.s = z3.Solver()
+        self.s.set("auto_config", False)
+        self.s.set("mbqi", False)
+        self.s.set("timeout", INC_TIMEOUT_MS)
+
+    def discharge(self, ob, recheck_cvc5=False):
+        t0 = time.time()
+        if z3.is_true(ob.goal):
+            ob.status, ob.backend, ob.time = "discharged", "syntactic", 0.0
+            return ob
+        while self.n < ob.nfacts:
+            self.s.add(self.facts[self.n])
+            self.n += 1
+        self.s.push()
+        self.s.add(z3.Not(ob.goal))
+        r = self.s.check()
+        self.s.pop()
+        if r == z3.unsat:
+            ob.status, ob.backend, ob.time = "discharged", "z3", time.time() - t0
+            if recheck_cvc5:
+                ob.pc = tuple(self.facts[:ob.nfacts])
+                discharge(ob, recheck_cvc5=True)
+            return ob
+        ob.pc = tuple(self.facts[:ob.nfacts])
+        discharge(ob, recheck_cvc5=recheck_cvc5)
+        ob.time = time.time() - t0
+        return ob
 
 
 def discharge(ob, use_cvc5=True, recheck_cvc5=False):
@@ -21,12 +59,20 @@ def discharge(ob, use_cvc5=True, recheck_cvc5=False):
         ob.status, ob.backend = "discharged", "syntactic"
         ob.time = 0.0
         return ob
-    s = z3.Solver()
-    s.set("timeout", Z3_TIMEOUT_MS)
-    for p in ob.pc:
-        s.add(p)
-    s.add(z3.Not(g))
-    r = s.check()
+    # pass 1: E-matching only (explicit patterns; fast and predictable); pass 2: default (MBQI)
+    r = z3.unknown
+    s = None
+    for mbqi, tmo in ((False, EMATCH_TIMEOUT_MS), (True, Z3_TIMEOUT_MS)):
+        s = z3.Solver()
+        s.set("timeout", tmo)
+        s.set("auto_config", False)
+        s.set("mbqi", mbqi)
+        for p in ob.pc:
+            s.add(p)
+        s.add(z3.Not(g))
+        r = s.check()
+        if r != z3.unknown:
+            break
     ob.time = time.time() - t0
     if r == z3.unsat:
         ob.status, ob.backend = "discharged", "z3"
